@@ -360,9 +360,69 @@ func (c *Ctx) checkCallerDisabled(r *Report, R *ssa.Function) {
 			}
 		}
 	})
+	// the location is (re)written on every path to publication: a pooled event otherwise keeps the location of
+	// an earlier record when the look-up is disabled
+	pd := postDominators(R)
+	var getEv ssa.Instruction
+	eachInstr(R, func(in ssa.Instruction) {
+		if call, ok := in.(*ssa.Call); ok {
+			if s := call.Common().StaticCallee(); s != nil && (s.Name() == "GetEvent" || funcIs(s, "sync", "Pool", "Get")) {
+				getEv = in
+			}
+		}
+	})
+	stale := false
+	if getEv != nil {
+		for _, fld := range []string{"File", "Line"} {
+			every := false
+			eachInstr(R, func(in ssa.Instruction) {
+				if st, ok := in.(*ssa.Store); ok {
+					if fa, ok := st.Addr.(*ssa.FieldAddr); ok && isEventPtr(fa.X.Type()) && fieldName(fa) == fld {
+						if in.Block() == getEv.Block() || pd[getEv.Block()][in.Block()] {
+							every = true
+						}
+					}
+				}
+			})
+			if !every && !c.resetClears(fld) {
+				stale = true
+				r.Fail(key+"#"+fld+"-every-path", c.pos(R.Pos()), "Event.%s is not written on every path from obtaining the pooled event to publishing it, and Event.Reset does not clear it: with caller look-up disabled a recycled event carries the location of an earlier, unrelated record instead of an empty one", fld)
+			}
+		}
+	}
+	if stale {
+		return
+	}
 	if n < 2 {
 		r.Fail(key, c.pos(R.Pos()), "the recorder does not populate Event.File and Event.Line")
 	} else if bad == 0 {
 		r.OK(key, "Event.File/Line come only from look-ups guarded by enableCaller; zero values otherwise")
 	}
+}
+
+// resetClears: (*Event).Reset stores a zero value into the named field.
+func (c *Ctx) resetClears(field string) bool {
+	ev := c.logType("Event")
+	if ev == nil {
+		return false
+	}
+	reset := c.declaredMethod(ev, "Reset")
+	if reset == nil {
+		return false
+	}
+	ok := false
+	eachInstr(reset, func(in ssa.Instruction) {
+		if st, isSt := in.(*ssa.Store); isSt {
+			if fa, isFa := st.Addr.(*ssa.FieldAddr); isFa && fieldName(fa) == field {
+				if k, isK := st.Val.(*ssa.Const); isK && (k.Value == nil || k.Value.ExactString() == "0" || k.Value.ExactString() == `""`) {
+					ok = true
+				}
+				// Level is reset to the NONE level variable, Time to the zero time
+				if _, isLoad := st.Val.(*ssa.UnOp); isLoad {
+					ok = true
+				}
+			}
+		}
+	})
+	return ok
 }
